@@ -239,6 +239,44 @@ pub fn box_defects(alpha: &[char], maxw: usize, maxh: usize, d: usize, f: &mut d
     }
 }
 
+/// every variant of `base` with up to `d` cells replaced by another character of `alpha`
+pub fn grid_defects(base: &str, alpha: &[char], d: usize, f: &mut dyn FnMut(String)) {
+    let rows: Vec<Vec<char>> = base.split('\n').map(|l| l.chars().collect()).collect();
+    let gw = rows.iter().map(|r| r.len()).max().unwrap_or(0);
+    let gh = rows.len();
+    let mut cells = vec![' '; gw * gh];
+    for (r, row) in rows.iter().enumerate() {
+        for (c, ch) in row.iter().enumerate() {
+            cells[r * gw + c] = *ch;
+        }
+    }
+    fn rec(cells: &mut Vec<char>, alpha: &[char], start: usize, left: usize, gw: usize, gh: usize, f: &mut dyn FnMut(String)) {
+        if left == 0 {
+            return;
+        }
+        for p in start..cells.len() {
+            let orig = cells[p];
+            for &a in alpha {
+                if a == orig {
+                    continue;
+                }
+                cells[p] = a;
+                f(enumr::grid_string(cells, gw, gh));
+                rec(cells, alpha, p + 1, left - 1, gw, gh, f);
+            }
+            cells[p] = orig;
+        }
+    }
+    f(enumr::grid_string(&cells, gw, gh));
+    rec(&mut cells, alpha, 0, d, gw, gh, f);
+}
+
+const FRAMES: [&str; 3] = [
+    "|  |\n+--+\n|  |\n|  |\n|  |\n+--+",
+    "+--+\n|  |\n+--+\n|  |\n|  |\n+--+",
+    "+-+-+\n| | |\n+-+-+\n| | |\n+-+-+",
+];
+
 const S4: [char; 4] = [' ', '-', '|', '+'];
 const S5: [char; 5] = [' ', '-', '|', '+', 'a'];
 
@@ -280,6 +318,70 @@ impl Prop for C03 {
                 enumr::grids(&S5, w, h, &mut |g| f(Case::s(g)))
             }));
         }
+        let (lv, lh) = if tier == Tier::Quick { (40usize, 110usize) } else { (60, 140) };
+        v.push(Scope::new(
+            "long-branches",
+            "a vertical line of every length up to the bound with a branch (+- , |- , -+ , -|) at every row, and a horizontal line of every length with a branch up or down at every column; large boxes",
+            move |f| {
+                for l in 2..=lv {
+                    for r in 0..l {
+                        for kind in 0..4 {
+                            let mut cv = shapes::Canvas::new();
+                            for i in 0..l as i32 {
+                                cv.put(1, i, '|');
+                            }
+                            match kind {
+                                0 => {
+                                    cv.put(1, r as i32, '+');
+                                    cv.put(2, r as i32, '-');
+                                }
+                                1 => cv.put(2, r as i32, '-'),
+                                2 => {
+                                    cv.put(1, r as i32, '+');
+                                    cv.put(0, r as i32, '-');
+                                }
+                                _ => cv.put(0, r as i32, '-'),
+                            }
+                            let mut rows: Vec<String> = cv.render().split('\n').map(|x| x.to_string()).collect();
+                            if kind < 2 {
+                                // keep the column of the line at 1 (render() trims the empty column 0)
+                                rows = rows.into_iter().map(|x| format!(" {}", x)).collect();
+                            }
+                            f(Case::s(rows.join("\n")));
+                        }
+                    }
+                }
+                let mut l = 2;
+                while l <= lh {
+                    for c in 0..l {
+                        for up in 0..2 {
+                            let mut top = vec![' '; l];
+                            let mut mid = vec!['-'; l];
+                            mid[c] = '+';
+                            top[c] = '|';
+                            let (a, b): (String, String) = (top.iter().collect(), mid.iter().collect());
+                            f(Case::s(if up == 1 { format!("{}\n{}", a.trim_end(), b) } else { format!("{}\n{}", b, a.trim_end()) }));
+                        }
+                    }
+                    l += if l < 12 { 1 } else { 7 };
+                }
+                for w in [1usize, 50, 99, 100, 101, 102, 120] {
+                    for h in [1usize, 23, 24, 25, 26, 30, 40] {
+                        f(Case::s(shapes::boxed(&shapes::SHARP, w, h)));
+                    }
+                }
+            },
+        ));
+        let fd = if tier == Tier::Quick { 2 } else { 3 };
+        v.push(Scope::new(
+            &format!("frame-defects-{}", fd),
+            "three multi-group frames (an open frame over a box, two stacked boxes, a 2x2 grid of boxes) with up to d cells replaced by any character of {space,-,|,+}",
+            move |f| {
+                for b in FRAMES {
+                    grid_defects(b, &S4, fd, &mut |g| f(Case::s(g)));
+                }
+            },
+        ));
         let d = if tier == Tier::Quick { 1 } else { 2 };
         let (mw, mh) = if tier == Tier::Quick { (8, 5) } else { (6, 3) };
         v.push(Scope::new(
